@@ -37,6 +37,11 @@ INVALID = [
     ["-o", "csv"],
     ["-o", "csv", "--select", ".=v", "--style", "pretty"],
     ["-o", "json", "--headers"],
+    ["-o", "csv", "--select", ".=v", "--style", "pretty", "--headers"],
+    ["-o", "csv", "--select", ".=v", "--null-keyword", "x", "--utf8-strings"],
+    ["--set", "d=1", "--set", "e=2", "--set", "d=3"],
+    ["--sort-by", ".=DESC nulls-last"],
+    ["--select", "(- 1 2 3)=x"],
     ["--group-by", "(("],
     ["--on-error", "explode"],
     ["--no-such-option"],
